@@ -138,7 +138,7 @@ mod verif_kani_c23_eq {
         assert!(lr != 3, "C23.result.tri.eq_list.and3");
         assert!(lr == and3(e0, e1), "C23.eq.list.three_valued_and.b2");
         assert!(lr == rl, "C23.eq.list.symmetric.and3");
-        kani::cover!(lr == 0, "reach: definitely unequal");
+        kani::cover!(lr == and3(e0, e1) && lr != 1, "reach: a non-true outcome");
         core::mem::forget(l);
         core::mem::forget(r);
     }
